@@ -44,6 +44,47 @@ def _candidates(d: Decl, extra):
     return list(extra) + xs
 
 
+ARB_MAIN = r"""
+    // ---- Arbitrary (C09 / C14): run the real generator on byte patterns; a panic or an invalid value is a witness
+    {
+        std::panic::set_hook(Box::new(|_| {}));
+        let mut pats: Vec<Vec<u8>> = vec![vec![]];
+        for len in 1..=17usize { pats.push(vec![0u8; len]); pats.push(vec![0xFFu8; len]); pats.push(vec![0x80u8; len]); pats.push(vec![0x7Fu8; len]);
+            let mut v = vec![0u8; len]; v[len - 1] = 1; pats.push(v.clone()); v[0] = 0x80; pats.push(v); let mut v = vec![0xFFu8; len]; v[0] = 0x7F; pats.push(v);
+            pats.push((0..len).map(|i| (i * 37 + 11) as u8).collect()); }
+        for b0 in 0..=255u8 { pats.push(vec![b0]); for b1 in [0u8, 1, 0x7F, 0x80, 0xFF] { pats.push(vec![b0, b1]); pats.push(vec![b1, b0, 0, 0]); pats.push(vec![0, 0, b1, b0]); pats.push(vec![0, 0, 0x80, 0x7F, b0, b1, 0, 0]); } }
+        for len in [1usize, 2, 4, 8, 16] { for b in 0..=255u8 { let mut v = vec![0u8; len]; v[0] = 0x80; v[len - 1] = b; pats.push(v); let mut v = vec![0xFFu8; len]; v[0] = 0x7F; v[len - 1] = b; pats.push(v); let mut v = vec![0u8; len]; v[len - 1] = b; pats.push(v); } }
+        @SETUP@
+        for (si, set) in settings.iter().enumerate() {
+            set();
+            let setting = format!("arbitrary setting #{}", si);
+            for p in pats.iter() {
+                let r = std::panic::catch_unwind(|| { let mut u = arbitrary::Unstructured::new(p); <@S@ as arbitrary::Arbitrary>::arbitrary(&mut u).map(|v| v.into_inner()) });
+                match r {
+                    Err(_) => report("Arbitrary", &format!("bytes {:?}", p), &setting, "PANIC".to_string(), "Ok(valid value) or Err(arbitrary::Error)".to_string(), &mut n),
+                    Ok(Ok(i)) => if !@R@::valid(&i) { report("Arbitrary", &format!("bytes {:?}", p), &setting, format!("Ok({:?}) which the validators reject", i), "a valid value".to_string(), &mut n) },
+                    Ok(Err(_)) => {}
+                }
+            }
+        }
+    }
+"""
+
+
+def arb_settings(d: Decl):
+    t = d.inner
+    T = t.upper()
+    uses = [n for n in d.aux if n.startswith('sym_lo_') or n.startswith('sym_hi_')]
+    if not uses:
+        return 'let settings: Vec<Box<dyn Fn()>> = vec![Box::new(|| {})];'
+    if d.family == 'int':
+        pairs = [('1', '10'), ('%s::MIN' % t, '%s::MAX' % t), ('0', '100'), ('5', '7')]
+        pairs = [('(%s) as %s' % (a, t) if '::' not in a else a, '(%s) as %s' % (b, t) if '::' not in b else b) for a, b in pairs]
+    else:
+        pairs = [('0.0', '1.0'), ('-5.0', '5.0'), ('100.0', '200.0'), ('-1e30', '1e30'), ('1e30', '2e30'), ('%s::MIN' % t, '%s::MAX' % t)]
+    return 'let settings: Vec<Box<dyn Fn()>> = vec![%s];' % ', '.join('Box::new(|| unsafe { SYM_LO_%s = %s; SYM_HI_%s = %s; })' % (T, a, T, b) for a, b in pairs)
+
+
 def witness_crate(d: Decl, extra_inputs=()):
     """Rust source of a program that prints JSON lines {entry, input, real, expected} for every
     disagreement between the real code and the reference."""
@@ -64,8 +105,9 @@ def witness_crate(d: Decl, extra_inputs=()):
            ref_module(d, string_errors=True)]
     R = 'ref_%s' % d.id
     out.append('fn esc(s: &str) -> String { let mut o = String::new(); for c in s.chars() { match c { \'"\' => o.push_str("\\\\\\""), \'\\\\\' => o.push_str("\\\\\\\\"), c if (c as u32) < 0x20 => o.push_str(&format!("\\\\u{:04x}", c as u32)), c => o.push(c) } } o }\n')
-    out.append('fn report(entry: &str, input: &str, setting: &str, real: String, expected: String, n: &mut usize) {\n'
-               '    if real != expected { *n += 1; if *n <= 5 { println!("{{\\"entry\\":\\"{}\\",\\"input\\":\\"{}\\",\\"bounds\\":\\"{}\\",\\"real\\":\\"{}\\",\\"expected\\":\\"{}\\"}}", esc(entry), esc(input), esc(setting), esc(&real), esc(&expected)); } }\n}\n')
+    out.append('static mut PER_ENTRY: Option<std::collections::HashMap<String, usize>> = None;\n'
+               'fn report(entry: &str, input: &str, setting: &str, real: String, expected: String, n: &mut usize) {\n'
+               '    if real != expected { *n += 1; let c = unsafe { let m = PER_ENTRY.get_or_insert_with(Default::default); let e = m.entry(entry.to_string()).or_insert(0); *e += 1; *e }; if c <= 3 { println!("{{\\"entry\\":\\"{}\\",\\"input\\":\\"{}\\",\\"bounds\\":\\"{}\\",\\"real\\":\\"{}\\",\\"expected\\":\\"{}\\"}}", esc(entry), esc(input), esc(setting), esc(&real), esc(&expected)); } }\n}\n')
     # expected result as debug string
     if has_v:
         exp = '%s::show(&%s::try_new(x.clone()))' % (R, R)
@@ -159,6 +201,8 @@ def witness_crate(d: Decl, extra_inputs=()):
     else:
         main.append('    let cands: Vec<(%s, &str)> = vec![%s];\n' % (I, ', '.join('(%s, %s)' % (c, json.dumps(c)) for c in cands)))
         main.append('    for (x, label) in cands { check_one(x, label, "", &mut n); }\n')
+    if 'Arbitrary' in d.derives and d.family in ('int', 'float'):
+        main.append(ARB_MAIN.replace('@S@', S).replace('@R@', R).replace('@I@', I).replace('@SETUP@', arb_settings(d)))
     main.append('    println!("{{\\"mismatches\\":{}}}", n);\n}\n')
     out.extend(main)
     return ''.join(out)
@@ -170,10 +214,15 @@ def run_witness(d: Decl, extra_inputs=(), features=()):
     crate = os.path.join(WORK, 'witness', d.id)
     shutil.rmtree(crate, ignore_errors=True)
     os.makedirs(os.path.join(crate, 'src'))
-    feats = sorted(set(features) | ({'new_unchecked'} if d.new_unchecked else set()))
+    feats = sorted(set(features) | ({'new_unchecked'} if d.new_unchecked else set()) | ({'arbitrary'} if 'Arbitrary' in d.derives else set()) | ({'serde'} if 'Deserialize' in d.derives or 'Serialize' in d.derives else set()))
     with open(os.path.join(crate, 'Cargo.toml'), 'w') as f:
+        deps = ''
+        if 'serde' in feats:
+            deps += 'serde = { version = "1", default-features = false, features = ["std"] }\nserde_json = "1"\n'
+        if 'arbitrary' in feats:
+            deps += 'arbitrary = "1"\n'
         f.write('[package]\nname = "nutype_verif_witness"\nversion = "0.0.0"\nedition = "2021"\n\n[workspace]\n\n'
-                '[dependencies]\nnutype = { path = "%s/nutype", features = %s }\n' % (pipeline.REPO, json.dumps(feats)))
+                '[dependencies]\nnutype = { path = "%s/nutype", features = %s }\n%s' % (pipeline.REPO, json.dumps(feats), deps))
     shutil.copy(os.path.join(pipeline.REPO, 'Cargo.lock'), os.path.join(crate, 'Cargo.lock'))
     with open(os.path.join(crate, 'src', 'main.rs'), 'w') as f:
         f.write(witness_crate(d, extra_inputs))
